@@ -117,40 +117,41 @@ def run(ctx: Ctx, tier: str) -> Result:
     for f, c in sites:
         if f is not ev:
             res.fail(Finding("C10.SCOPE", f.qname, c, f.loc(c), "a second dynamic evaluation site outside evaluate_expression"))
-    need(len(good_sites) == 1, "evaluate_expression: expected exactly one eval call, found %d" % len(good_sites))
-    _, ecall = good_sites[0]
-    FR = None
-    args = list(ecall.args) + [None] * (3 - len(ecall.args))
-    for kw in ecall.keywords:
-        if kw.arg == "globals":
-            args[1] = kw.value
-        if kw.arg == "locals":
-            args[2] = kw.value
-    e0 = ctx.expand.expand(args[0], ev)
-    if e0 == [P(ev, 1)]:
-        res.ok("C10.SCOPE", {"expression text unchanged": e0[0]})
-    else:
-        res.fail(Finding("C10.SCOPE", ev.qname, ecall, ev.loc(ecall), "the evaluated text is not the configured expression unchanged: %s" % e0))
+    if not good_sites:
+        res.fail(Finding("C10.SCOPE", ev.qname, "<eval(expression, frame globals, frame locals)>", ev.loc(), "the evaluation API does not evaluate the expression any more"))
+        return res
     frame_field = None
-    for idx, attr in ((2, "f_locals"), (1, "f_globals")):
-        a = args[idx]
-        txt = ctx.expand.expand(a, ev) if a is not None else ["None"]
-        ok = False
-        for x in txt:
-            base = None
-            if x.endswith("." + attr):
-                base = x[: -len(attr) - 1]
-            elif x.startswith("getattr(") and (", '%s'" % attr) in x:
-                base = x[len("getattr("):x.index(", '%s'" % attr)]
-            if base and base.startswith("@self.") and (frame_field is None or frame_field == base):
-                frame_field = base
-                ok = True
-        if ok:
-            res.ok("C10.SCOPE", {attr: txt[0]})
+    for _, ecall in good_sites:
+        args = list(ecall.args) + [None] * (3 - len(ecall.args))
+        for kw in ecall.keywords:
+            if kw.arg == "globals":
+                args[1] = kw.value
+            if kw.arg == "locals":
+                args[2] = kw.value
+        e0 = ctx.expand.expand(args[0], ev)
+        if e0 == [P(ev, 1)]:
+            res.ok("C10.SCOPE", {"expression text unchanged": e0[0]})
         else:
-            res.fail(Finding("C10.SCOPE", ev.qname, ecall, ev.loc(ecall),
-                             "the expression is not evaluated against the paused frame's %s (got %s): names visible at the paused "
-                             "line are missing and/or the agent's own names are visible" % (attr, txt)))
+            res.fail(Finding("C10.SCOPE", ev.qname, ecall, ev.loc(ecall), "the evaluated text is not the configured expression unchanged: %s" % e0))
+        for idx, attr in ((2, "f_locals"), (1, "f_globals")):
+            a = args[idx]
+            txt = ctx.expand.expand(a, ev) if a is not None else ["None"]
+            ok = False
+            for x in txt:
+                base = None
+                if x.endswith("." + attr):
+                    base = x[: -len(attr) - 1]
+                elif x.startswith("getattr(") and (", '%s'" % attr) in x:
+                    base = x[len("getattr("):x.index(", '%s'" % attr)]
+                if base and base.startswith("@self.") and (frame_field is None or frame_field == base):
+                    frame_field = base
+                    ok = True
+            if ok:
+                res.ok("C10.SCOPE", {attr: txt[0]})
+            else:
+                res.fail(Finding("C10.SCOPE", ev.qname, ecall, ev.loc(ecall),
+                                 "the expression is not evaluated against the paused frame's %s (got %s): names visible at the paused "
+                                 "line are missing, shadowed and/or the agent's own names are visible" % (attr, txt)))
     if frame_field:
         fld = frame_field.split(".", 1)[1]
         tcc = p.cls(TC)
@@ -225,8 +226,8 @@ def run(ctx: Ctx, tier: str) -> Result:
         res.fail(Finding("C10.SCOPE", gf[0].qname, "<eval_watch(field_name)>", gf[0].loc(), "log fields are not evaluated through eval_watch with the field text"))
 
     # every request is a fresh evaluation in the frame: the eval call is unconditional (no remembered answer for the same text)
-    econds = paths.enclosing_conditions(p, ecall, ev)
-    eearly = [n for n in t.nodes_in(ev, ast.Return) if n.lineno < ecall.lineno and not paths.within(p, ecall, n)]
+    econds = paths.enclosing_conditions(p, ecall, ev) if len(good_sites) == 1 else []
+    eearly = [n for n in t.nodes_in(ev, ast.Return) if n.lineno < ecall.lineno and not paths.within(p, ecall, n)] if len(good_sites) == 1 else []
     if econds or eearly:
         what_ = econds[0][0] if econds else eearly[0]
         res.fail(Finding("C10.SCOPE", ev.qname, what_, ev.loc(what_), "the expression is only evaluated when `%s`: a repeated expression (two log fields, a watch and the condition) gets a "
@@ -283,7 +284,24 @@ def run(ctx: Ctx, tier: str) -> Result:
         else:
             res.fail(Finding("C10.CONTAIN", ewf.qname, r, ewf.loc(r), "eval_watch does not return (WatchResult, variables, text) on this path: the caller fails and the whole snapshot / log line is lost"))
 
+    # what a hit evaluates and renders is kept in objects of that hit: nothing below the trace callback writes into an
+    # object that is shared by the whole process (two threads pausing at the same time would read one another's frame)
+    from .common import process_wide_writes
+    from .c01 import reachable
+    wk_, _roles = trace_worker(ctx)
+    scope_ = reachable(ctx, wk_)
+    pw = process_wide_writes(ctx, scope_)
+    for f_, n_, what_ in pw[:3]:
+        res.fail(Finding("C10.SCOPE", f_.qname, n_, f_.loc(n_), "`%s` writes per-hit state into %s, which every thread and every hit shares: a hit that is processed "
+                         "while another one is in progress evaluates / renders with the other's frame and results" % (norm(n_)[:70], what_)))
+    if not pw:
+        res.ok("C10.SCOPE", {"no process-wide object written below the trace callback": len(scope_)})
+    res.floor("functions below the trace callback", len(scope_), 60)
+
     # ---------------- CONTAIN
+    for _, other in good_sites[:-1]:
+        if g.catching_try(other, ev, "BaseException") is None:
+            res.fail(Finding("C10.CONTAIN", ev.qname, other, ev.loc(other), "the eval call is not enclosed by a handler for BaseException: a failing expression is raised instead of yielding an error value"))
     ct = g.catching_try(ecall, ev, "BaseException")
     if ct is None:
         res.fail(Finding("C10.CONTAIN", ev.qname, ecall, ev.loc(ecall), "the eval call is not enclosed by a handler for BaseException: a failing expression is raised instead of yielding an error value"))
